@@ -135,6 +135,7 @@ func generate(prop, tier string, seed uint64, w *bufio.Writer) {
 		genC01(e, r, tier)
 	case "C02":
 		genC02(e, r, tier)
+		genDhist(e, r, budget(tier, 1500, 30000))
 	case "C03":
 		genEnc(e, r, budget(tier, 6000, 120000), false, "enc")
 	case "C04":
@@ -150,6 +151,7 @@ func generate(prop, tier string, seed uint64, w *bufio.Writer) {
 		genOversize(e, r)
 	case "C09":
 		genC09(e, r, tier)
+		genDhist(e, r, budget(tier, 2500, 40000))
 	case "C10":
 		genC10(e, r, tier)
 	case "C11":
@@ -162,12 +164,16 @@ func generate(prop, tier string, seed uint64, w *bufio.Writer) {
 		genC14(e, r, tier)
 	case "C15":
 		genC15(e, r, tier)
+		genScribble(e, r, budget(tier, 1500, 30000), true)
 	case "C16":
 		genC16(e, r, tier)
+		genDec2(e, r, budget(tier, 800, 30000))
 	case "C17":
 		genC17(e, r, tier)
 	case "C18":
 		genC18(e, r, tier)
+		genDhist(e, r, budget(tier, 1500, 30000))
+		genScribble(e, r, budget(tier, 1500, 30000), false)
 	default:
 		fmt.Fprintf(os.Stderr, "unknown property %s\n", prop)
 		os.Exit(2)
@@ -597,6 +603,22 @@ func genC07(e *emitter, r *rng, tier string) {
 			}
 		}
 	}
+	// unregistered types in frames whose octet count does not fit 16 bits (length field 0x3ffe..0xfffe):
+	// the RawPacket must still hold the frame verbatim
+	for _, l := range []int{0x3ffe, 0x3fff, 0x4000, 0x4001, 0x7fff, 0x8000, 0xfffe} {
+		if tier != "thorough" && l > 0x4001 {
+			continue
+		}
+		for _, pt := range []byte{192, 205, 206, 208} {
+			b := make([]byte, 4*(l+1))
+			b[0], b[1], b[2], b[3] = 0x80|byte(16+r.intn(14)), pt, byte(l>>8), byte(l)
+			for i := 4; i < len(b); i += 1 + r.intn(97) {
+				b[i] = r.u8()
+			}
+			e.emit("table-64k", opDgram(b))
+			e.emit("table-64k", opDgram(append(append([]byte(nil), b...), 0x80, 203, 0, 0)))
+		}
+	}
 	n := budget(tier, 3000, 60000)
 	for i := 0; i < n; i++ {
 		p := genPacket(r, false)
@@ -736,6 +758,18 @@ func genC11(e *emitter, r *rng, tier string) {
 				dg = append(dg, encOf(p)...)
 			}
 			e.emit("cpdec", opDec("CompoundPacket", dg))
+			// the same datagram with something after the last complete packet: 1-3 stray octets, a bare
+			// header announcing more than follows, a cut inside the last packet
+			if len(dg) > 0 {
+				switch r.intn(4) {
+				case 0:
+					e.emit("cpdec-tail", opDec("CompoundPacket", append(append([]byte(nil), dg...), r.bytesN(1+r.intn(3))...)))
+				case 1:
+					e.emit("cpdec-tail", opDec("CompoundPacket", append(append([]byte(nil), dg...), 0x80, 203, 0, byte(1+r.intn(3)))))
+				case 2:
+					e.emit("cpdec-tail", opDec("CompoundPacket", dg[:len(dg)-1-r.intn(3)]))
+				}
+			}
 		}
 	}
 }
@@ -942,7 +976,15 @@ func genC18(e *emitter, r *rng, tier string) {
 		if r.chance(1, 10) {
 			p = genCompound(r)
 		} else {
-			p = genPacket(r, r.chance(1, 6))
+			p = genPacket(r, r.chance(1, 3))
+		}
+		if i%8 == 0 {
+			// extended reports with every block out of range somewhere (T above 15, odd chunk counts, ...)
+			x := &rtcp.ExtendedReport{SenderSSRC: r.u32()}
+			for j, m := 0, 1+r.intn(4); j < m; j++ {
+				x.Reports = append(x.Reports, genXRBlock(r, true))
+			}
+			p = x
 		}
 		k := 2 + r.intn(12)
 		var ops []*Sx
